@@ -79,6 +79,9 @@ type Env struct {
 	released map[string]map[string]bool
 	reopened bool
 	closed   bool
+	// member values per uuid of the last accepted batch
+	lastVersions map[string][]string
+	curMdocs     []*Doc
 	// number of automatic sweep queries evaluated / with a non-empty non-total result
 	sweepQueries_, sweepPartial int
 	// last search delete etc. for hooks
@@ -1163,6 +1166,18 @@ func (e *Env) batchClasses(items []BatchItem, mids []string, want string) {
 }
 
 func (e *Env) applyBatch(what string, args []sod.Object, final map[string]*Doc, ids []string) {
+	// every member value per uuid, in write order (crash oracles need the intermediates)
+	e.lastVersions = map[string][]string{}
+	defer func() {
+		for k, a := range args {
+			if d, ok := a.(*Doc); ok {
+				_ = k
+				if k < len(e.curMdocs) && e.curMdocs[k] != nil {
+					e.lastVersions[d.UUID()] = append(e.lastVersions[d.UUID()], canon(e.curMdocs[k]))
+				}
+			}
+		}
+	}()
 	// map tmp ids to the uuids sod assigned
 	assigned := map[string]string{}
 	for k, a := range args {
@@ -1219,6 +1234,7 @@ func (e *Env) execMany(what string, op *Op) {
 		if n != len(args) {
 			e.failf("%s: InsertOrUpdateMany n=%d, want %d", what, n, len(args))
 		}
+		e.curMdocs = mdocs
 		e.applyBatch(what, args, final, ids)
 		if e.onStored != nil {
 			done := map[sod.Object]bool{}
@@ -1286,6 +1302,7 @@ func (e *Env) execBulk(what string, op *Op) {
 		}
 		// later chunks may refer to objects ("same") of earlier chunks: their
 		// uuids are known now
+		e.curMdocs = mdocs[c.lo:c.hi]
 		e.applyBatch(what, args[c.lo:c.hi], final, ids)
 		for k := c.lo; k < c.hi; k++ {
 			for j := c.hi; j < len(args); j++ {
